@@ -83,3 +83,41 @@ func VerifC16UpdateStoreCAS() {
 	}
 	rt.Assert(rt.BytesEq(ms.Store("eth").Get(other), []byte{9}), "other keys untouched")
 }
+
+// VerifC16UpdateStoreSeq: a raw store update with two entries (possibly naming the same key)
+// applies each entry only if the value current at that point equals the entry's stated old value:
+// the second entry is judged against the store as the first entry left it.
+func VerifC16UpdateStoreSeq() {
+	ms, k := verifGovKeeper()
+	ctx := models.NewContext(ms, 10, 1700000000)
+	keys := [][]byte{{0x11, 0x01}, {0x11, 0x02}}
+	storedA, storedB := rt.Bytes("storedA", 1), rt.Bytes("storedB", 1)
+	ms.Store("eth").Set(keys[0], storedA)
+	ms.Store("eth").Set(keys[1], storedB)
+	k2 := rt.Choose("secondKey", 2) // the first entry names key 0
+	old1, val1 := rt.Bytes("old1", 1), rt.Bytes("new1", 1)
+	old2, val2 := rt.Bytes("old2", 1), rt.Bytes("new2", 1)
+	entry := func(key, old, val []byte) types.UpdateStore {
+		return types.UpdateStore{Space: "eth", Key: hex.EncodeToString(key), OldValue: hex.EncodeToString(old), Value: hex.EncodeToString(val)}
+	}
+	srv := msgServer{Keeper: k}
+	_, err := srv.UpdateStore(ctx, &types.MsgUpdateStore{Authority: verifAuthority,
+		UpdateStores: []types.UpdateStore{entry(keys[0], old1, val1), entry(keys[k2], old2, val2)}})
+	ok1 := rt.BytesEq(storedA, old1)
+	cur2 := storedB
+	if k2 == 0 {
+		cur2 = val1
+	}
+	ok2 := rt.BytesEq(cur2, old2)
+	if err == nil {
+		rt.Cover("applied")
+		rt.Assert(rt.And(ok1, ok2), "every entry applied only when the value current at that point equals its stated old value")
+		rt.Assert(rt.BytesEq(ms.Store("eth").Get(keys[k2]), val2), "second entry's key holds its new value")
+		if k2 != 0 {
+			rt.Assert(rt.BytesEq(ms.Store("eth").Get(keys[0]), val1), "first entry's key holds its new value")
+		}
+	} else {
+		rt.Cover("refused")
+		rt.Assert(rt.Not(rt.And(ok1, ok2)), "refused only on a mismatch")
+	}
+}
